@@ -1118,10 +1118,12 @@ def _c02_xtype(tier):
                 continue
             Tw = "f" if scen.sub(fmt) == 6 else "d"
             a, b = ivs[:len(ivs) // ch * ch], ivi[:len(ivi) // ch * ch]
-            S.scn(fmt="0x%x" % fmt, ch=ch, T=Tw, kind="i2fscale", fmode=1)
-            S.add("file 1 new", "open 0 vio w 1 %d %d %d" % (fmt, ch, RATE), "cmd 0 SET_SCALE_INT_FLOAT_WRITE 1",
-                  "write 0 s i %d %s" % (len(a), " ".join(map(str, a))), "write 0 i i %d %s" % (len(b), " ".join(map(str, b))), "close 0",
-                  "open 1 vio r 1 %d %d %d" % (fmt if scen.major(fmt) == scen.RAW else 0, ch, RATE), "read 1 %s i %d" % (Tw, len(a) + len(b) + ch), "close 1")
+            for rep in ((0, 1) if scen.major(fmt) in (4, 1) else (0,)):          # (also through the portable serialisers)
+                S.scn(fmt="0x%x" % fmt, ch=ch, T=Tw, kind="i2fscale", fmode=1, rep=rep)
+                S.add("file 1 new", "open 0 vio w 1 %d %d %d" % (fmt, ch, RATE), *(["cmd 0 TEST_IEEE_FLOAT_REPLACE 1"] if rep else []))
+                S.add("cmd 0 SET_SCALE_INT_FLOAT_WRITE 1",
+                      "write 0 s i %d %s" % (len(a), " ".join(map(str, a))), "write 0 i i %d %s" % (len(b), " ".join(map(str, b))), "close 0",
+                      "open 1 vio r 1 %d %d %d" % (fmt if scen.major(fmt) == scen.RAW else 0, ch, RATE), "read 1 %s i %d" % (Tw, len(a) + len(b) + ch), "close 1")
     return [(S.lines, "TraceCore.tla", "TraceCore.cfg", "xtype")]
 
 
